@@ -4,8 +4,16 @@ set -e
 V=$(cd "$(dirname "$0")/.." && pwd)
 B=$V/build/ocaml
 mkdir -p "$B"
+# the model files Extract.v loads must be compiled against the CURRENT Gen files (a regenerated
+# grammar or table leaves stale .vo files otherwise): bring them up to date first
+if [ -f "$V/coq/Makefile" ]; then (cd "$V/coq" && make -j16 Extract/Extract.vo > "$B/make.log" 2>&1) || true; fi
 cd "$B"
-coqc -Q "$V/coq/Model" SSL.Model -Q "$V/coq/Gen" SSL.Gen "$V/coq/Extract/Extract.v" >/dev/null
+extract() { coqc -Q "$V/coq/Model" SSL.Model -Q "$V/coq/Gen" SSL.Gen "$V/coq/Extract/Extract.v" > /dev/null; }
+if ! extract 2> "$B/extract.err"; then
+  # stale compiled files somewhere in the cone of Extract.v: rebuild the model directory as a whole, once
+  if [ -f "$V/coq/Makefile" ]; then (cd "$V/coq" && make -j16 $(ls Model/*.v Gen/*.v | sed 's/\.v$/.vo/') Extract/Extract.vo >> "$B/make.log" 2>&1) || true; fi
+  extract
+fi
 rm -f "$B"/lane_*.ml
 cp "$V"/ocaml/*.ml "$B"/
 # lane_*.ml are optional plug-in handler modules (each calls Plug.register at load time)
